@@ -97,3 +97,24 @@ Proof.
 Qed.
 
 End ExclBelow.
+
+(* ---- a file exclusion acts on the walk and on nothing else ---- *)
+Section ExclOnlyWalk.
+Context {comp : Type} (ceqb : comp -> comp -> bool).
+Notation name := (list comp).
+
+Definition with_excl (c : @scan_cfg comp) (e : name -> bool) : @scan_cfg comp :=
+  {| sc_root := sc_root c; sc_tree := sc_tree c; sc_mp := sc_mp c; sc_excl := e;
+     sc_exclude_external := sc_exclude_external c; sc_ext_excl := sc_ext_excl c;
+     sc_has_ext_excl := sc_has_ext_excl c; sc_limit := sc_limit c |}.
+
+(* if another file exclusion predicate finds the same modules and files, the whole architecture is the same: external
+   modules, their ancestors and the imports to them are never looked at by a file pattern *)
+Theorem scan_excl_only_through_walk (c : @scan_cfg comp) (e : name -> bool) :
+  walk_from ceqb e (sc_root c) (sc_tree c) (sc_mp c) = walk_from ceqb (sc_excl c) (sc_root c) (sc_tree c) (sc_mp c) ->
+  scan ceqb (with_excl c e) = scan ceqb c.
+Proof.
+  intros H. unfold scan. cbn [with_excl sc_excl sc_root sc_tree sc_mp]. rewrite H. reflexivity.
+Qed.
+
+End ExclOnlyWalk.
